@@ -294,7 +294,7 @@ func TestExhaustiveAPIHandlerPanics(t *testing.T) {
 		}
 	}
 	stats.CaseN(n, n, "exhaustive_api_endpoint_x_value_x_method_x_position")
-	stats.Exhaustive("API endpoint type (7) x panic value (9: nil, error, string, runtime index, nil deref, struct, custom error type, context.Canceled, wrapped context.Canceled) x method class (GET, POST) x position (alone, first, last)")
+	stats.Exhaustive("API endpoint type (7) x panic value (10: nil, error, string, runtime index, nil deref, struct, custom error type, context.Canceled, wrapped context.Canceled, typed nil error pointer) x method class (GET, POST) x position (alone, first, last)")
 }
 
 func TestPropAPIHandlerPanics(t *testing.T) {
